@@ -73,6 +73,7 @@ pub struct Snap {
 
 #[derive(Clone, Copy, Debug, Default)]
 pub struct KState {
+    pub writes_total: u32,
     pub inserts: u32,
     pub weak_dels: u32,
     pub present: bool,
@@ -353,6 +354,7 @@ impl Exec {
                         return None;
                     }
                 }
+                st.writes_total += 1;
                 st.inserts += 1;
                 st.present = true;
                 Some(WKind::Put(*c))
@@ -361,6 +363,7 @@ impl Exec {
                 if weak {
                     return None;
                 }
+                st.writes_total += 1;
                 st.present = false;
                 Some(WKind::Del)
             }
@@ -368,6 +371,7 @@ impl Exec {
                 if !weak || !st.present {
                     return None;
                 }
+                st.writes_total += 1;
                 st.present = false;
                 st.weak_dels += 1;
                 Some(WKind::WeakDel)
@@ -428,12 +432,121 @@ impl Exec {
         let r = f(self.tree());
         let after = self.seqno.get();
         r.map_err(|e| format!("{name} returned Err: {e:?}"))?;
+        if !self.verdicts.is_empty() {
+            self.apply_filter_log(before)?;
+        }
         let n = after - before;
         self.installs += n;
         if n > 0 {
             self.stats.bump(&format!("installs.{name}"));
         }
         Ok(n)
+    }
+
+    /// Fold the calls the compaction filter logged during the last maintenance op into the model.
+    /// `v` is the seqno of the version that op published.
+    fn apply_filter_log(&mut self, v: SeqNo) -> R<()> {
+        let calls: Vec<FilterCall> = std::mem::take(&mut *self.filter_log.lock().expect("log"));
+        if calls.is_empty() {
+            return Ok(());
+        }
+        let thr = self.blob_threshold();
+        let trace = std::env::var("LSMV_TRACE").is_ok();
+        let mut used: std::collections::BTreeSet<(Key, SeqNo)> = Default::default();
+        for c in calls {
+            if trace {
+                println!(
+                    "TRACE filter call key={} value={} verdict={:?} repl={:?} last_level={}",
+                    crate::util::hex(&c.key),
+                    crate::util::hex(&c.value[..c.value.len().min(8)]),
+                    c.verdict,
+                    c.replacement.as_ref().map(|r| crate::util::hex(&r[..r.len().min(8)])),
+                    c.is_last_level
+                );
+            }
+            self.stats.bump("filter.calls");
+            // which write was shown? values are unique per write (and per replacement)
+            let Some(ws) = self.model.writes.get(&c.key) else {
+                if self.model.was_ever_written(&c.key, &c.value) {
+                    // the model forgot this (shadowed) write at a reopen; it can only become visible
+                    // again through a verdict that leaves the key's answer open
+                    if let Some(r) = &c.replacement {
+                        self.model.ever.entry(c.key.clone()).or_default().insert(r.clone());
+                    }
+                    continue;
+                }
+                return Err(format!(
+                    "compaction filter was shown key {} with a value that was never written for it",
+                    crate::util::hex(&c.key)
+                ));
+            };
+            // calls of one compaction arrive newest version first and show every version at most
+            // once; match against the values as they were before this compaction
+            let shown = ws.iter().rev().find(|w| {
+                !used.contains(&(c.key.clone(), w.seqno))
+                    && matches!(self.model.effective_kind(&c.key, w, v), Kind::Val(ref x) if x == &c.value)
+            });
+            let Some(shown) = shown else {
+                if self.model.was_ever_written(&c.key, &c.value) {
+                    if let Some(r) = &c.replacement {
+                        self.model.ever.entry(c.key.clone()).or_default().insert(r.clone());
+                    }
+                    continue;
+                }
+                return Err(format!(
+                    "compaction filter was shown key {} with a value that was never written for it",
+                    crate::util::hex(&c.key)
+                ));
+            };
+            let shown_seq = shown.seqno;
+            used.insert((c.key.clone(), shown_seq));
+            let newest = self.model.deciding(&c.key, SeqNo::MAX).map(|w| w.seqno);
+            let is_newest = newest == Some(shown_seq);
+            if is_newest {
+                self.stats.bump("filter.newest_shown");
+            } else {
+                self.stats.bump("filter.older_shown");
+            }
+            let kidx = self.keys.iter().position(|k| k == &c.key);
+            let once = kidx.map_or(false, |i| self.kstate[i].writes_total == 1);
+            match &c.verdict {
+                VerdictSpec::Keep => {}
+                VerdictSpec::Replace(_) => {
+                    let r = c.replacement.clone().expect("replacement");
+                    if let Some(t) = thr {
+                        let old_sep = c.value.len() as u32 >= t;
+                        let new_sep = r.len() as u32 >= t;
+                        if old_sep != new_sep {
+                            self.stats.bump("filter.replace_crossed_threshold");
+                        }
+                    }
+                    self.model.rewrite(&c.key, shown_seq, Kind::Val(r), v);
+                    self.stats.bump("filter.replace");
+                }
+                VerdictSpec::Remove => {
+                    self.model.rewrite(&c.key, shown_seq, Kind::Tomb, v);
+                    self.stats.bump("filter.remove");
+                }
+                VerdictSpec::RemoveWeak | VerdictSpec::Destroy => {
+                    if once {
+                        self.model.rewrite(&c.key, shown_seq, Kind::Tomb, v);
+                        self.stats.bump("filter.weak_or_destroy_once");
+                    } else {
+                        // older versions may resurface: the properties leave the answer open
+                        self.model.rewrite(&c.key, shown_seq, Kind::Tomb, v);
+                        self.model.taint_key_bounded(&c.key, v, shown_seq + 1);
+                        self.stats.bump("filter.weak_or_destroy_multi");
+                    }
+                }
+            }
+            if is_newest && !matches!(c.verdict, VerdictSpec::Keep) {
+                // does a deeper, untouched level hold older versions of this key?
+                if ws_len(&self.model, &c.key) >= 2 {
+                    self.stats.bump("filter.newest_with_older_versions");
+                }
+            }
+        }
+        Ok(())
     }
 
     fn classify_layout(&mut self) {
@@ -884,6 +997,10 @@ impl Exec {
         self.stats.bump("m.drop_range");
         Ok(())
     }
+}
+
+fn ws_len(m: &Model, k: &[u8]) -> usize {
+    m.writes.get(k).map_or(0, |w| w.len())
 }
 
 /// Compare an observed point answer with the model's expectation.
